@@ -108,3 +108,17 @@ pub fn sized_v5(item: &crate::v5::codec::Decoded) -> (u32, bool, bool) {
     use crate::inflight::SizedRequest;
     (item.size(), item.is_publish(), item.is_chunk())
 }
+
+/// `v5::codec::Codec::set_retain_available` / `set_sub_ids_available` (what the server calls after the handshake)
+pub fn codec_v5_set_caps(
+    codec: &crate::v5::codec::Codec,
+    retain_available: Option<bool>,
+    sub_ids_available: Option<bool>,
+) {
+    if let Some(v) = retain_available {
+        codec.set_retain_available(v);
+    }
+    if let Some(v) = sub_ids_available {
+        codec.set_sub_ids_available(v);
+    }
+}
